@@ -22,7 +22,7 @@ from typing_extensions import NotRequired, TypedDict
 
 __all__ = [
     "TDk",
-    "Rev", "Fwd", "IntKeyed", "LS", "KT", "VT",
+    "Rev", "Fwd", "IntKeyed", "LS", "KT", "VT", "FSub", "ISub",
     "kwmap_int", "kwmap_str", "seq_int", "seq_str",
     "A", "B", "C", "D", "G", "E", "IE", "N", "TD", "TDp", "TDn", "HasX", "SupportsClose",
     "Suppress", "NoSuppress", "cond", "call", "use", "ident", "first", "pair", "apply_fn",
@@ -303,6 +303,20 @@ class IntKeyed(Dict[int, VT]):
 class LS(List[T]):
     def __repr__(self):
         return f"LS({list.__repr__(self)})"
+
+
+class FSub(float):
+    """A float subclass: promoted to complex like float itself."""
+
+    def __repr__(self):
+        return f"FSub({float.__repr__(self)})"
+
+
+class ISub(int):
+    """An int subclass: promoted to float and complex like int itself."""
+
+    def __repr__(self):
+        return f"ISub({int.__repr__(self)})"
 
 
 class TDk(TypedDict):
